@@ -93,6 +93,36 @@ func ZZ_C09() {
 			}
 		}
 	}
+}
+
+// ZZ_C09_cache: a remembered verdict equals a fresh one, and is only ever served for the
+// very same question. (The cache may drop any entry at any time: every Get of a stored key
+// forks into served / missing.)
+func ZZ_C09_cache() {
+	extra := 1
+	if vr.Tier() > 0 {
+		extra = 2
+	}
+	m := zzBuildNode(extra, 7)
+	node := m.node
+	for _, r := range m.records {
+		vr.Assume(vr.UFBool("checkkey", r.Signer.PublicSpendKey[:]))
+	}
+	node.cacheStore = zzNewCache()
+	chain := &Chain{node: node, ChainId: zzId(1), State: &ChainState{}}
+	ts := vr.U64()
+	vr.Assume(ts < 1<<62)
+	s := zzSnapshotWithCert(ts)
+	// masks: four, five or six of the first members (around the threshold of a 7-8 member set)
+	vr.Assume(s.Signature.Mask == 0x0F || s.Signature.Mask == 0x1F || s.Signature.Mask == 0x3F)
+	crypto.ZZVerifyLog, crypto.ZZAggKeyLog = nil, nil
+	signers, ok := chain.verifyFinalization(s)
+	node.cacheStore.Wait()
+	if ok {
+		vr.Cover("finalized")
+	} else {
+		vr.Cover("rejected")
+	}
 	// the same question again: same answer, served from the cache or recomputed
 	signers2, ok2 := chain.verifyFinalization(s)
 	vr.Assert(ok2 == ok && len(signers2) == len(signers), "remembered-verdict-equals-fresh-verdict")
@@ -100,9 +130,6 @@ func ZZ_C09() {
 		if i < len(signers) {
 			vr.Assert(signers2[i] == signers[i], "remembered-signers-equal-fresh-signers")
 		}
-	}
-	if len(crypto.ZZVerifyLog) == firstCalls {
-		vr.Cover("served-from-cache")
 	}
 	// another certificate (any hash, signature, mask): never served from the first one's entry
 	// unless it is the same question
@@ -118,12 +145,11 @@ func ZZ_C09() {
 	case 2:
 		vr.Fill(s2.Signature.Signature[:])
 	case 3:
-		s2.Signature.Mask ^= 1 << uint(vr.Choose(3, 8))
+		s2.Signature.Mask ^= 1 << uint(4*vr.Choose(1, 2))
 	}
 	_, okB := chain.verifyFinalization(s2)
 	if okB && len(crypto.ZZVerifyLog) == before {
 		vr.Assert(s2.Hash == s.Hash && s2.Signature.Signature == s.Signature.Signature && s2.Signature.Mask == s.Signature.Mask,
 			"a-changed-hash-signature-or-mask-is-verified-afresh")
-		vr.Cover("same-question-from-cache")
 	}
 }
